@@ -29,7 +29,7 @@ func TestC18Build(t *testing.T) {
 	sub := lab.Sub("accepted-builds", "rapid: configurations in which every documented constraint holds (same generator as load-vs-reference, no faults) with an enabled plugin chain of the documented plugins "+
 		"{logging, size_limit, gzip, headers, request-id} (30%: any built-in incl. custom-auth) whose numeric options are typed as YAML int (`5`), float (`5.0`) or — invalid — quoted string (`\"5\"`), "+
 		"20% of the entries without a usable config (`config` absent, `config:` null, `config: null`, `config: ~`, `config: {}`); LoadConfig, then loadbalancer.NewLoadBalancer (always stopped) and "+
-		"plugins.BuildChain as cmd/helios does; string options (custom-auth apiKey, headers values, admin token, names, paths) from the documentation's examples, a table of values with $ ${..} %% # \\ : {} [] and other characters that are ordinary in a YAML scalar, and random strings; oracle: load succeeds; no panic; the returned configuration's documented string values equal what yaml.v3 reads from the text; the admin API mux built from it admits \"Authorization: Bearer <token of the file>\" and no neighbouring token, the plugin chain built from it (over a stub) passes a request with the file's apiKey, rejects neighbouring keys, and the headers entries set the file's values; with int/float typing only, the build succeeds (documented forms are accepted); with a string-typed number, or a gzip / custom-auth / headers entry without config, either a build error or success is allowed — never a panic; "+
+		"plugins.BuildChain as cmd/helios does; string options (custom-auth apiKey, headers values, admin token, names, paths) from the documentation's examples, a table of values with $ ${..} % # \\ : {} [] and other characters that are ordinary in a YAML scalar, and random strings; oracle: load succeeds; no panic; the returned configuration's documented string values equal what yaml.v3 reads from the text; the admin API mux built from it admits \"Authorization: Bearer <token of the file>\" and no neighbouring token, the plugin chain built from it (over a stub) passes a request with the file's apiKey, rejects neighbouring keys, and the headers entries set the file's values; with int/float typing only, the build succeeds (documented forms are accepted); with a string-typed number, or a gzip / custom-auth / headers entry without config, either a build error or success is allowed — never a panic; "+
 		"non-trivial = a YAML-typed plugin option or an entry without usable config is present")
 	sub.Floor("bare-config", 0.15)
 	sub.NontrivialFloor(0.50)
